@@ -294,6 +294,12 @@ class AsExtOp(DataflowOp, Protocol):
     def outer_signature(self) -> tys.FunctionType:
         return self.ext_op.outer_signature()
 
+    def _invalidate_ext_op(self) -> None:
+        """Forget the cached :attr:`ext_op`, to be called when the values it
+        was computed from change (e.g. a partial operation is given new types).
+        """
+        self.__dict__.pop("ext_op", None)
+
     def _to_serial(self, parent: Node) -> sops.ExtensionOp:
         return self.ext_op._to_serial(parent)
 
@@ -468,6 +474,7 @@ class MakeTuple(AsExtOp, _PartialOp):
 
     def _set_in_types(self, types: tys.TypeRow) -> None:
         self._types = types
+        self._invalidate_ext_op()
 
     def __repr__(self) -> str:
         return "MakeTuple" + (f"({self._types})" if self._types is not None else "")
@@ -521,6 +528,7 @@ class UnpackTuple(AsExtOp, _PartialOp):
         assert isinstance(t, tys.Sum), f"Expected unary Sum, got {t}"
         (row,) = t.variant_rows
         self._types = row
+        self._invalidate_ext_op()
 
     def __repr__(self) -> str:
         return "UnpackTuple" + (f"({self._types})" if self._types is not None else "")
@@ -1353,6 +1361,7 @@ class Noop(AsExtOp, _PartialOp):
     def _set_in_types(self, types: tys.TypeRow) -> None:
         (t,) = types
         self._type = t
+        self._invalidate_ext_op()
 
     def __repr__(self) -> str:
         return "Noop" + (f"({self._type})" if self._type is not None else "")
